@@ -405,8 +405,9 @@ pub fn conc_value(v: &J, mnames: &mut Names, r: &mut Rng, top: bool) -> AV {
 pub fn conc_msg(want: &J, r: &mut Rng, delim_map: &HashMap<u64, u8>) -> AMsg {
     let mut groups = vec![];
     let mut mnames = Names::new();
+    // one name map for the whole message: the same abstract name in two groups is the same concrete name
+    let mut names = Names::new();
     for g in want.as_array().expect("want") {
-        let mut names = Names::new();
         let a = g["tag"].as_u64().unwrap();
         let tag = *delim_map.get(&a).unwrap_or(&(a as u8));
         let mut attrs = vec![];
